@@ -18,7 +18,8 @@ PROP = "C09"
 PNAMES = "abcdefghi"
 # formal parameter names are bound names: the meaning of a macro does not depend on them.  Schemes:
 # 0 unrelated names; 1 every later name is a prefix of the earlier ones; 2 every earlier name is a prefix of
-# the later ones; 3 names that extend the directive and data words used in bodies (db, dw, dc32, ...)
+# the later ones; 3 names that extend the directive and data words used in bodies (db, dw, dc32, ...);
+# 4 the first two parameters are named like the labels the program defines further down (la, lb)
 CUR = {"scheme": 0, "np": 0}
 EXT = ["dbq", "dwq", "dc8q", "dc16q", "dc32q", "dlq", "asciiq", "dqq", "dc64q"]
 
@@ -31,6 +32,9 @@ def pname(i):
         return "w" + "y" * (i - 1)
     if sch == 3:
         return EXT[i - 1]
+    if sch == 4 and i <= 2:
+        # the names of the program's labels (defined behind the macros)
+        return ["la", "lb"][i - 1]
     return "p" + PNAMES[i - 1]
 
 
@@ -56,7 +60,7 @@ def rstmt(s, out, variant):
     elif k == "equ":
         out.append("%s equ %s" % (s["n"], ritem(s["v"])))
     elif k == "macro":
-        CUR["scheme"], CUR["np"] = (variant // 2) % 4, s["np"]
+        CUR["scheme"], CUR["np"] = (variant // 2) % 5, s["np"]
         ps = ", ".join(pname(i + 1) for i in range(s["np"]))
         out.append(".macro %s%s" % (s["n"], "(%s)" % ps if s["np"] else ""))
         for b in s["body"]:
